@@ -63,7 +63,8 @@ func runC06(c *vlib.Check) {
 	c.Rule = "(A) operation codes 0..65535 and {2^31-1, 2^31, 2^32-1} x {request, response} x {binary, XML, JSON}: registered codes carry the rich payload of the operation, the others an opaque structure; " +
 		"(B) object types 0..255 and 2^32-1 inside Get response / Register request / Import request / Export response, with the matching object and with a mismatching one; " +
 		"(C) the 50 standard attribute names x a value of each of the 10 TTLV kinds, plus custom x-/y- and unknown names x 10 kinds. Inputs are produced by the independent generator / writers. " +
-		"distinct = distinct input documents"
+		"(D) opaque preservation over the generic tree alphabet (every leaf class, nesting to depth 3, adjacent sibling structures, all pairs of representatives): each structure as payload of 3 unregistered operations " +
+		"(request and response) and each tree as value of 2 custom attributes, three encodings, re-encoded bytes must equal the independent generator's. distinct = distinct input documents"
 	c.Assumptions = []string{"the table operation -> payload types is the harness' hand-maintained list of the 27 implemented operations (msg.PayloadTypes)",
 		"operation code 0 is not an enumeration value and is left out"}
 	// ---------- (A) operations
@@ -355,6 +356,7 @@ func runC06(c *vlib.Check) {
 			}
 		}
 	}
+	c06Opaque(c)
 	c.Exhaustive = true
 }
 
